@@ -151,7 +151,8 @@ class LegacyDFXPWriter(BaseWriter):
             if force == lang:
                 return lang
 
-        return langs[-1]
+        # A caption set without any language has nothing to fall back on
+        return langs[-1] if langs else force
 
     def _recreate_region_tag(self, region_id, styling, dfxp):
         dfxp_region = dfxp.new_tag('region')
